@@ -11,7 +11,7 @@ reg(Prop('C11', [
 ], level='proof', design_ref='§5 C11',
     clauses=['form_size_write_len', 'form_size_write_decodes', 'offsets_exact', 'refs_resolve', 'roundtrip', 'unit_roundtrip',
              'abbrev_codes', 'abbrev_dedup', 'strings_add', 'strings_shared', 'strings_offset',
-             'unencodable_is_error', 'encodable_is_ok', 'dangling_ref_is_error', 'fixups_all_resolve',
+             'unencodable_is_error', 'encodable_is_ok', 'dangling_ref_is_error', 'dangling_ref_invalid_reference', 'patch_no_panic', 'file_index_roundtrip', 'fixups_all_resolve',
              'base_types_first', 'base_types_first_perm', 'size_no_panic', 'write_no_panic', 'calc_no_panic', 'write_tree_no_panic'],
     explored_only=[
         'the step from the spec-level DIE/form reader (Spec/UnitWrSpec.v decode_die, form_decode) to gimli::read: harness oracle — every case is read back '
@@ -35,6 +35,5 @@ reg(Prop('C11', [
     level_note='Hypotheses that remain in the theorems: an Expression\'s predicted size equals the bytes it writes (C15), the unit fits 2^64 bytes, entry ids are unique '
                '(the arena is a tree), AttributeValue::String has no NUL (documented precondition). Trusted: the hand-written model (tied by differential execution only), '
                'Spec/UnitWrSpec.v as the meaning of DIE bytes, harness/src/c11.rs + dump.rs (script interpreter, predicted dump), OCaml glue computing list offsets for the '
-               'restricted list shapes of the byte-level stream. Known findings (listed, not repaired): FileIndex numbered by the unit version instead of the line program\'s; '
-               'panic instead of Err for a reference to a reserved-never-added id beyond the entries vector; foreign-unit entry ids detected only by debug_assert.',
+               'restricted list shapes of the byte-level stream. Repaired in /repo after being found here: FileIndex numbered by the unit version instead of the line program version (c92c4f4), panic instead of Err for a reference to a reserved-never-added id beyond the entries vector (c42c00d); the model mirrors the repaired code. Known finding (listed): foreign-unit entry ids are detected only by debug_assert.',
 ))
